@@ -981,9 +981,14 @@ fn parse_number(
         }
         position += 1;
     }
-    // Check the group separator is in multiples of three
-    for index in &group_separator_index {
-        if (chars.len() - index) % 3 != 0 {
+    // Check the group separator is in multiples of three (and separates something)
+    for (i, index) in group_separator_index.iter().enumerate() {
+        let after = chars.len() - index;
+        if after == 0 || after % 3 != 0 {
+            return Err("Cannot parse number".to_string());
+        }
+        if i > 0 && group_separator_index[i - 1] == *index {
+            // two adjacent separators
             return Err("Cannot parse number".to_string());
         }
     }
